@@ -240,6 +240,8 @@ pub struct FnWeaver<'a> {
     has_fx: bool,
     vacuity: bool,
     pub saw_plain_lend: bool,
+    /// (name, arity) of the woven fx-taking methods of the impl type this function belongs to
+    pub self_fx: Vec<(String, usize)>,
 }
 
 impl<'a> FnWeaver<'a> {
@@ -475,7 +477,9 @@ impl<'a> FnWeaver<'a> {
         }
         for (n, _) in self.c.loops.iter() {
             if *n > self.loop_ord {
-                fatal(&format!("{}: lost anchor: loop {} not found (function has {} loops)", self.func, n, self.loop_ord));
+                // the loop the contract speaks about is gone: its invariants have nothing to attach to, the
+                // function-level ensures still have to be proved on the new body
+                eprintln!("KWEAVE-NOTE: {}: loop {} of the contract not found (function has {} loops); loop clauses dropped", self.func, n, self.loop_ord);
             }
         }
     }
@@ -718,7 +722,7 @@ impl<'a> FnWeaver<'a> {
         if self.is_guard_call(&init.expr) && self.has_fx {
             out.push(ScopeOb { text: self.guard_release_text(&name), watch: Some(name.clone()), force_wrap: false });
         }
-        let eas = self.c.exit_asserts.clone();
+        let eas = if self.vacuity { vec![] } else { self.c.exit_asserts.clone() };
         for ea in eas.iter() {
             let unbound = self.c.binds.iter().any(|b| b.optional && !self.binds.contains_key(&b.var) && ea.clause.text.contains(b.var.as_str()));
             if unbound {
@@ -916,10 +920,14 @@ struct PassA<'x, 'a> {
 
 impl<'x, 'a> PassA<'x, 'a> {
     fn fx_arg(&mut self, name: &str, nargs: usize, close: usize, trailing: bool) {
+        self.fx_arg2(name, nargs, close, trailing, false)
+    }
+    fn fx_arg2(&mut self, name: &str, nargs: usize, close: usize, trailing: bool, on_self: bool) {
         if !self.w.has_fx {
             return;
         }
-        if self.w.unit.fxcalls.iter().any(|(n, a)| n == name && *a == nargs) {
+        let self_fx = on_self && self.w.self_fx.iter().any(|(n, a)| n == name && *a == nargs);
+        if self_fx || self.w.unit.fxcalls.iter().any(|(n, a)| n == name && *a == nargs) {
             let t = if nargs > 0 && !trailing { ", Tracked(fx)" } else { "Tracked(fx)" };
             self.w.ghost(close, t.to_string(), 0);
         }
@@ -993,7 +1001,8 @@ fn contains_break_continue(b: &syn::Block) -> bool {
 impl<'x, 'a, 'ast> Visit<'ast> for PassA<'x, 'a> {
     fn visit_expr_method_call(&mut self, m: &'ast syn::ExprMethodCall) {
         let name = m.method.to_string();
-        self.fx_arg(&name, m.args.len(), lo(m.paren_token.span.close()), m.args.trailing_punct());
+        let on_self = matches!(&*m.receiver, syn::Expr::Path(p) if p.path.is_ident("self"));
+        self.fx_arg2(&name, m.args.len(), lo(m.paren_token.span.close()), m.args.trailing_punct(), on_self);
         self.call_hints(&name, lo(m.span()), hi(m.span()));
         syn::visit::visit_expr_method_call(self, m);
     }
@@ -1160,6 +1169,7 @@ pub fn new_weaver<'a>(src: &'a str, file: &'a str, func: String, c: &'a FnContra
         has_fx: c.fx,
         vacuity: false,
         saw_plain_lend: false,
+        self_fx: vec![],
     }
 }
 
